@@ -155,6 +155,7 @@ class FlowRowModel(ParserModel):
             "save_flow_result": "mainarg_value",
             "wait_for_response": "mainarg_none",
             "add_contact_urn": "mainarg_value",
+            "set_contact_channel": "mainarg_value",
             "set_contact_language": "mainarg_value",
             "set_contact_name": "mainarg_value",
             "set_contact_status": "mainarg_value",
